@@ -106,7 +106,7 @@ def enc_P(g, p, for_model):
     else:
         gof = hfiles(selected(g, p["gofiles"]))
         mk, mv = p["modkind"], p["modver"]
-    return "P=" + ";".join([hx(p["id"]), hx(p["path"]), hx(p["name"]), mk, hx(mv), gof,
+    return "P=" + ";".join([hx(p["id"]), hx(p["path"]), hx(p["name"]), p.get("kind", "n"), mk, hx(mv), gof,
                             hfiles(p["altfiles"], none_mark="!"), hfiles(p["otherfiles"]), hfiles(p["sidefiles"]),
                             hfiles(p["embedfiles"]), hkv(p["rewrites"]), hlist(p["deps"])])
 
@@ -122,7 +122,7 @@ def default_G(hello):
 
 
 def default_P(pid, name=None):
-    return {"id": pid, "path": pid, "name": name or pid.split("/")[-1], "modkind": "n", "modver": "", "gofiles": [], "altfiles": None,
+    return {"id": pid, "path": pid, "name": name or pid.split("/")[-1], "kind": "n", "modkind": "n", "modver": "", "gofiles": [], "altfiles": None,
             "otherfiles": [], "sidefiles": [], "embedfiles": [], "rewrites": [], "deps": []}
 
 
@@ -191,6 +191,9 @@ def gen_base(rng, hello):
         items = list(rw.items())
         rng.shuffle(items)
         p["rewrites"] = items
+        if i < npk - 1:
+            # cl.PkgKindOf: normal, decl-only, link-only, external library, Python module, noinit
+            p["kind"] = rng.choice(["n", "n", "n", "d", "d", "l", "x", "p", "i"])
         if i < npk - 1 and rng.random() < 0.3:
             p["modkind"] = rng.choice(["v", "r", "l"])
             p["modver"] = rng.choice(["v1.0.0", "v1.2.3", "v0.0.0-2024"])
@@ -219,7 +222,7 @@ def mutate(rng, g, pkgs):
     kinds = ["same", "goos", "goarch", "target", "targetabi", "triple", "abimode", "opt", "tags", "tags-perm", "chash", "llvmver", "cc",
              "ccrest", "cflags", "ldflags", "linker", "extra", "env-listed", "env-ccflags", "env-other", "file-content-samesize",
              "file-content-size", "file-mtime", "file-overlay", "file-add", "file-remove", "side", "embed", "rewrite-val", "rewrite-add",
-             "rewrite-perm", "dep-content", "dep-version", "pkgid", "files-perm", "deps-perm"]
+             "rewrite-perm", "dep-content", "dep-content", "dep-kind", "dep-version", "pkgid", "files-perm", "deps-perm"]
     k = rng.choice(kinds)
 
     def other(cur, choices):
@@ -257,7 +260,7 @@ def mutate(rng, g, pkgs):
             g2["extrafiles"].append(F("extra/new.s", b"n", 1_700_000_000_000_000_000))
     elif k == "env-listed":
         n = rng.choice(LISTED)
-        g2["env"][n] = other(g2["env"].get(n, ""), ["", "1", "0", "on"])
+        g2["env"][n] = other(g2["env"].get(n, ""), ["", "1", "0", "on", "off", "true", "ON"])
         if g2["env"][n] == "":
             del g2["env"][n]
     elif k == "env-ccflags":
@@ -318,12 +321,19 @@ def mutate(rng, g, pkgs):
         for p in p2:
             p["rewrites"].reverse()
     elif k == "dep-content":
-        if len(p2) < 2:
+        # a package that somebody imports (whatever its kind: normal, decl-only, link-only, py, ...) changes
+        imported = [p for p in p2 if p["modkind"] == "n" and p["gofiles"] and any(p["id"] in q["deps"] and q["id"] != p["id"] for q in p2)]
+        if not imported:
             return "same", g2, p2
-        p = p2[0]
-        if not p["gofiles"]:
-            return "same", g2, p2
+        p = rng.choice(imported)
         p["gofiles"][0].content += b"x"
+        k = "dep-content:" + p["kind"]
+    elif k == "dep-kind":
+        cands = [p for p in p2[:-1]]
+        if not cands:
+            return "same", g2, p2
+        p = rng.choice(cands)
+        p["kind"] = other(p["kind"], ["n", "d", "l", "x", "p", "i"])
     elif k == "dep-version":
         cands = [p for p in p2 if p["modkind"] != "n"]
         if not cands:
@@ -481,7 +491,8 @@ def correspondence(ctx, harness, modeld, hello, n_bases, n_mut, cfg):
             if model_same and not rel_same:
                 stats["pairs_model_collides_rel_differs"] += 1
             if real_same and not model_same:
-                coarser.append((kind, real_lines[j], real_lines[i], bytes.fromhex(ra[x][0]).decode()))
+                # last component: do the RELEVANT inputs differ too?  Then an archive of one is wrongly served for the other.
+                coarser.append((kind, real_lines[j], real_lines[i], bytes.fromhex(ra[x][0]).decode(), not rel_same))
             if model_same and not real_same:
                 finer.append((kind, real_lines[j], real_lines[i], bytes.fromhex(ra[x][0]).decode()))
     stats["field_mismatch"], stats["real_coarser"], stats["real_finer"] = len(field_mm), len(coarser), len(finer)
@@ -516,7 +527,8 @@ class Mod:
         self.root = root
         self.rng = rng
         self.nfill = nfill
-        self.c = {"main": 100, "a": 200, "b": 400, "c": 500, "cside": 300, "extra": 700}
+        self.c = {"main": 100, "a": 200, "b": 400, "c": 500, "cside": 300, "extra": 700, "cfg": 21}
+        self.envx = {}         # extra environment for every build of the module (LLGO_* switches)
         self.has_extra = False
         self.tagx = False
         self.opt = "-O2"
@@ -532,13 +544,18 @@ class Mod:
         if rel == "go.mod":
             return "module %s\n\ngo 1.24\n" % MODNAME
         if rel == "main.go":
-            return ('package main\n\nimport (\n\t"%s/a"\n\t"%s/b"\n)\n\nconst Src = %d\n\n%s\nfunc main() {\n'
-                    '\tprintln("main.src", Src)\n\tprintln("main.fill", fill())\n\ta.Report()\n\tb.Report()\n}\n'
-                    % (MODNAME, MODNAME, c["main"], filler("main", 2)))
+            return ('package main\n\nimport (\n\t"%s/a"\n\t"%s/b"\n\t"%s/cfg"\n)\n\nconst Src = %d\n\n%s\nfunc main() {\n'
+                    '\tprintln("main.src", Src)\n\tprintln("main.fill", fill())\n\tprintln("main.cfg", cfg.Size)\n\ta.Report()\n\tb.Report()\n}\n'
+                    % (MODNAME, MODNAME, MODNAME, c["main"], filler("main", 2)))
+        if rel == "cfg/cfg.go":
+            # a decl-only package (cl.PkgDeclOnly): never compiled, no archive; its constants and types live in its importers
+            return ('package cfg\n\nconst LLGoPackage = "decl"\n\nconst Size = %d\n\ntype Buf struct {\n\tA [Size]byte\n}\n' % c["cfg"])
         if rel == "a/a.go":
             return ('package a\n\nimport (\n\t_ "unsafe"\n\n\t"%s/c"\n)\n\nconst LLGoFiles = "_wrap/w.c"\n\nconst Src = %d\n\n'
                     '//go:linkname cval C.verif_a_cval\nfunc cval() int32\n\n//go:linkname kval C.verif_a_kval\nfunc kval() int32\n\n'
+                    '//go:linkname optval C.verif_a_opt\nfunc optval() int32\n\n'
                     'var XA = "xa-default"\n\n%s\nfunc Report() {\n\tprintln("a.src", Src)\n\tprintln("a.cside", cval())\n\tprintln("a.k", kval())\n'
+                    '\tprintln("a.opt", optval())\n'
                     '\tprintln("a.x", XA)\n\tprintln("a.tag", tagval)\n\tprintln("a.fill", fill())\n\tprintln("a.cc", c.Const)\n\tc.Report()\n}\n'
                     % (MODNAME, c["a"], filler("a", self.nfill)))
         if rel == "a/t_on.go":
@@ -548,17 +565,20 @@ class Mod:
         if rel == "a/extra.go":
             return 'package a\n\nfunc init() { println("a.extra", %d) }\n' % c["extra"]
         if rel == "a/_wrap/w.c":
-            return "#ifndef K\n#define K 1\n#endif\nint verif_a_cval(void) { return %d; }\nint verif_a_kval(void) { return K; }\n" % c["cside"]
+            # verif_a_opt: clang defines __OPTIMIZE__ for -O1 and above; the level reaches clang as CCFLAGS[0] = level.Flag()
+            return ("#ifndef K\n#define K 1\n#endif\nint verif_a_cval(void) { return %d; }\nint verif_a_kval(void) { return K; }\n"
+                    "int verif_a_opt(void) {\n#ifdef __OPTIMIZE__\n\treturn 1;\n#else\n\treturn 0;\n#endif\n}\n" % c["cside"])
         if rel == "b/b.go":
             return ('package b\n\nimport "%s/c"\n\nconst Src = %d\n\n%s\nfunc Report() {\n\tprintln("b.src", Src)\n\tprintln("b.cc", c.Const)\n'
                     '\tprintln("b.cv", c.Val())\n\tprintln("b.fill", fill())\n}\n' % (MODNAME, c["b"], filler("b", self.nfill)))
         if rel == "c/c.go":
-            return ('package c\n\nconst Const = %d\n\n%s\nfunc Val() int { return Const + 1 }\n\nfunc Report() {\n\tprintln("c.src", Const)\n'
-                    '\tprintln("c.fill", fill())\n}\n' % (c["c"], filler("c", self.nfill)))
+            return ('package c\n\nimport "%s/cfg"\n\nconst Const = %d\n\n%s\nfunc Val() int { return Const + 1 }\n\n'
+                    'func BufBytes() int { return len(cfg.Buf{}.A) * 2 }\n\nfunc Report() {\n\tprintln("c.src", Const)\n'
+                    '\tprintln("c.cfg", BufBytes())\n\tprintln("c.fill", fill())\n}\n' % (MODNAME, c["c"], filler("c", self.nfill)))
         raise KeyError(rel)
 
     def files(self):
-        fs = ["go.mod", "main.go", "a/a.go", "a/t_on.go", "a/t_off.go", "a/_wrap/w.c", "b/b.go", "c/c.go"]
+        fs = ["go.mod", "main.go", "a/a.go", "a/t_on.go", "a/t_off.go", "a/_wrap/w.c", "b/b.go", "c/c.go", "cfg/cfg.go"]
         if self.has_extra:
             fs.append("a/extra.go")
         return fs
@@ -594,8 +614,9 @@ class Mod:
     # ---- which input determines which output line
     RESP = {"main.src": "main.go", "main.fill": "main.go", "a.src": "a/a.go", "a.cside": "a/_wrap/w.c", "a.k": "env:CCFLAGS", "a.x": "flag:-X",
             "a.tag": "flag:-tags", "a.fill": "a/a.go", "a.cc": "c/c.go", "a.extra": "a/extra.go", "c.src": "c/c.go", "c.fill": "c/c.go",
-            "b.src": "b/b.go", "b.cc": "c/c.go", "b.cv": "c/c.go", "b.fill": "b/b.go"}
-    CONST_OF = {"main.go": "main", "a/a.go": "a", "b/b.go": "b", "c/c.go": "c", "a/_wrap/w.c": "cside", "a/extra.go": "extra"}
+            "b.src": "b/b.go", "b.cc": "c/c.go", "b.cv": "c/c.go", "b.fill": "b/b.go", "main.cfg": "cfg/cfg.go", "c.cfg": "cfg/cfg.go",
+            "a.opt": "flag:-O", "main.trace": "env:LLGO_TRACE", "a.trace": "env:LLGO_TRACE", "b.trace": "env:LLGO_TRACE", "c.trace": "env:LLGO_TRACE"}
+    CONST_OF = {"main.go": "main", "a/a.go": "a", "b/b.go": "b", "c/c.go": "c", "a/_wrap/w.c": "cside", "a/extra.go": "extra", "cfg/cfg.go": "cfg"}
 
     def expected(self):
         """what the program must print, by construction (sanity check of the oracle, not the oracle)"""
@@ -603,10 +624,11 @@ class Mod:
         out = []
         if self.has_extra:
             out.append("a.extra %d" % c["extra"])
-        out += ["main.src %d" % c["main"], "main.fill %d" % expected_fill(2), "a.src %d" % c["a"], "a.cside %d" % c["cside"],
-                "a.k %d" % (1 if self.K is None else self.K), "a.x %s" % ("xa-default" if self.xa is None else self.xa),
+        out += ["main.src %d" % c["main"], "main.fill %d" % expected_fill(2), "main.cfg %d" % c["cfg"], "a.src %d" % c["a"], "a.cside %d" % c["cside"],
+                "a.k %d" % (1 if self.K is None else self.K), "a.opt %d" % (0 if self.opt == "-O0" else 1),
+                "a.x %s" % ("xa-default" if self.xa is None else self.xa),
                 "a.tag %d" % (1 if self.tagx else 0), "a.fill %d" % expected_fill(self.nfill), "a.cc %d" % c["c"], "c.src %d" % c["c"],
-                "c.fill %d" % expected_fill(self.nfill), "b.src %d" % c["b"], "b.cc %d" % c["c"], "b.cv %d" % (c["c"] + 1),
+                "c.cfg %d" % (2 * c["cfg"]), "c.fill %d" % expected_fill(self.nfill), "b.src %d" % c["b"], "b.cc %d" % c["c"], "b.cv %d" % (c["c"] + 1),
                 "b.fill %d" % expected_fill(self.nfill)]
         return out
 
@@ -666,6 +688,12 @@ class Mod:
             m = re.search(r"const (?:Src|Const) = (\d+)", data)
             self.c[self.CONST_OF[rel]] = int(m.group(1))
             self.versions[rel].append((data, mt))
+        elif kind == "envvar":                  # "NAME=value" ("NAME=" unsets)
+            n, _, v = arg.partition("=")
+            if v:
+                self.envx[n] = v
+            else:
+                self.envx.pop(n, None)
         elif kind in ("noop", "clear", "force"):
             pass
         else:
@@ -680,13 +708,19 @@ class Mod:
         g["tags"] = "nogc,tagx" if self.tagx else "nogc"
         g["opt"] = {"-O0": 0, "-O2": 2}[self.opt]
         g["abimode"] = self.abi
-        g["env"] = {"CCFLAGS": "-DK=%d" % self.K} if self.K is not None else {}
+        g["env"] = dict(self.envx)
+        if self.K is not None:
+            g["env"]["CCFLAGS"] = "-DK=%d" % self.K
 
         def gf(rel, tag=None):
             p = os.path.join(self.root, rel)
             return F(rel, open(p, "rb").read(), os.stat(p).st_mtime_ns, tag=tag)
+        pcfg = default_P(MODNAME + "/cfg", "cfg")
+        pcfg["kind"] = "d"
+        pcfg["gofiles"] = [gf("cfg/cfg.go")]
         pc = default_P(MODNAME + "/c", "c")
         pc["gofiles"] = [gf("c/c.go")]
+        pc["deps"] = [MODNAME + "/cfg"]
         pb = default_P(MODNAME + "/b", "b")
         pb["gofiles"] = [gf("b/b.go")]
         pb["deps"] = [MODNAME + "/c"]
@@ -700,8 +734,8 @@ class Mod:
             pa["rewrites"] = [("XA", self.xa)]
         pm = default_P(MODNAME, "main")
         pm["gofiles"] = [gf("main.go")]
-        pm["deps"] = [MODNAME + "/a", MODNAME + "/b"]
-        return g, [pc, pb, pa, pm]
+        pm["deps"] = [MODNAME + "/a", MODNAME + "/b", MODNAME + "/cfg"]
+        return g, [pcfg, pc, pb, pa, pm]
 
 
 class Builder:
@@ -717,6 +751,7 @@ class Builder:
         e = llgo_env(self.ctx, {"XDG_CACHE_HOME": xdg, "GOCACHE": self.gocache})
         if mod.K is not None:
             e["CCFLAGS"] = e["CCFLAGS"] + " -DK=%d" % mod.K
+        e.update(mod.envx)
         return e
 
     def build(self, mod, xdg, out, genll=False, force=False):
@@ -751,10 +786,15 @@ def drop_user_archives(xdg):
 
 
 def out_lines(stderr):
-    return [l for l in stderr.split("\n") if re.match(r"^(main|a|b|c)\.[a-z]+ ", l)]
+    """the program's own lines + one pseudo line per package counting the call-trace lines LLGO_TRACE makes it print"""
+    lines = stderr.split("\n")
+    out = [l for l in lines if re.match(r"^(main|a|b|c)\.[a-z]+ ", l)]
+    for pk, prefix in (("main", "call %s." % MODNAME), ("a", "call %s/a." % MODNAME), ("b", "call %s/b." % MODNAME), ("c", "call %s/c." % MODNAME)):
+        out.append("%s.trace %d" % (pk, sum(1 for l in lines if l.startswith(prefix))))
+    return out
 
 
-def run_history(ctx, builder, hello, modeld, hid, script, fresh_oracle, res, cfg):
+def run_history(ctx, builder, hello, modeld, hid, script, fresh_oracle, res, cfg, targeted=False):
     """script: list of (kind, arg). After every step: build through the history's cache, build the oracle, compare."""
     rng = ctx.rng
     root = os.path.join(ctx.scratch, "hist-%s" % hid)
@@ -779,6 +819,11 @@ def run_history(ctx, builder, hello, modeld, hid, script, fresh_oracle, res, cfg
         prog = os.path.join(root, "prog")
         p, cmd = builder.build(mod, xdg, prog, force=(kind == "force"))
         if p.returncode != 0:
+            if targeted and si > 0:
+                # a targeted history probes settings the normal path never uses (LLGO_OPTIMIZE=off ...): a build that does not
+                # work in this sandbox ends the history, it is not a verdict
+                ctx.log("note: targeted history %s stops at step %d (%s): build failed: %s" % (hid, si, desc, (p.stdout + p.stderr)[-300:]))
+                break
             raise RuntimeError("llgo build failed in history %s step %d (%s):\n%s" % (hid, si, desc, (p.stdout + p.stderr)[-3000:]))
         after = user_archives(xdg)
         if kind == "initial" and not fresh_oracle:
@@ -812,7 +857,7 @@ def run_history(ctx, builder, hello, modeld, hid, script, fresh_oracle, res, cfg
             res["oracle_builds"] += 1
         res["steps"] += 1
         res["edit_kinds"][kind] = res["edit_kinds"].get(kind, 0) + 1
-        if want != mod.expected():
+        if [l for l in want if ".trace " not in l] != mod.expected():
             res["oracle_vs_expected"].append({"history": hid, "step": si, "edit": desc, "oracle": want, "expected": mod.expected()})
         model_lines.append("build %d 1 %s" % (1 if kind == "force" else 0, inputs_id))
         observed = {}
@@ -823,11 +868,14 @@ def run_history(ctx, builder, hello, modeld, hid, script, fresh_oracle, res, cfg
         wantd = dict(l.split(" ", 1) for l in want)
         gotd = dict(l.split(" ", 1) for l in got)
         stale = sorted(k for k in set(wantd) | set(gotd) if wantd.get(k) != gotd.get(k))
-        step = {"step": si, "edit": desc, "cmd": " ".join(cmd[1:]), "stale_lines": stale, "observed": observed, "model_line": len(model_lines) - 1}
+        step = {"step": si, "edit": desc, "cmd": " ".join(cmd[1:]), "stale_lines": stale, "observed": observed, "model_line": len(model_lines) - 1,
+                "_snap": {"kind": kind, "arg": arg, "hidden": bool(arg and kind in ("src-hidden", "revert") and mod.is_hidden(arg)), "edits_so_far": list(mod.log),
+                          "command": cmd[1:], "env_CCFLAGS_extra": None if mod.K is None else "-DK=%d" % mod.K, "env_extra": dict(mod.envx),
+                          "module_files": {rel: open(os.path.join(mod.root, rel)).read() for rel in mod.files()}}}
         steps.append(step)
         for line in stale:
             resp = Mod.RESP.get(line, "?")
-            if resp in ("c/c.go", "a/a.go", "b/b.go", "a/extra.go") and mod.is_hidden(resp):
+            if resp in ("c/c.go", "a/a.go", "b/b.go", "a/extra.go", "cfg/cfg.go") and mod.is_hidden(resp):
                 key = KNOWN_CLASSES["mtime"]
             elif resp == "a/_wrap/w.c":
                 key = KNOWN_CLASSES["side"]
@@ -844,21 +892,50 @@ def run_history(ctx, builder, hello, modeld, hid, script, fresh_oracle, res, cfg
                        % (desc, line, gotd.get(line), line, wantd.get(line)),
                        {"history": hid, "compiler": "harness build (build.Do + -X)" if builder.is_harness else "llgo build",
                         "edits_so_far": list(mod.log), "step": si, "line": line, "responsible_input": resp,
-                        "through_cache": got, "clean_build": want, "command": cmd[1:], "env_CCFLAGS_extra": None if mod.K is None else "-DK=%d" % mod.K,
+                        "through_cache": got, "clean_build": want, "command": cmd[1:], "env_CCFLAGS_extra": None if mod.K is None else "-DK=%d" % mod.K, "env_extra": dict(mod.envx),
                         "module_files": {rel: open(os.path.join(mod.root, rel)).read() for rel in mod.files()},
                         "how": "write the files, run the listed edits each followed by the command with a private XDG_CACHE_HOME; compare with the same command under an empty XDG_CACHE_HOME"})
     # the Lean model's buildProg over the same history: hit/miss and fresh/stale per package
     answers = model_lines_run(modeld, cfg, model_lines)
+    seen_rel = {}          # package -> relevant-input hashes of every build since the cache was last empty
     for step in steps:
-        ans = answers[step.pop("model_line")]
+        ml = step.pop("model_line")
+        snap = step.pop("_snap")
+        if snap["kind"] == "clear":
+            seen_rel = {}
+        ans = answers[ml]
         mpred = {}
         if ans.startswith("ok"):
             for t in ans.split()[1:]:
-                i, hm, fs = t.split(":")
-                mpred[bytes.fromhex(i).decode().split("/")[-1]] = (hm, fs)
+                i, hm, fs, rh = t.split(":")
+                mpred[bytes.fromhex(i).decode().split("/")[-1]] = (hm, fs, rh)
         else:
             res["model_errors"].append(ans)
-        step["model"] = {k: list(v) for k, v in mpred.items() if k in PKGS}
+        # spec (second form): a package served from the cache although its relevant inputs differ from those of EVERY build
+        # since the cache was empty - whatever archive was served, it was compiled from other inputs ("the next build
+        # reflects the change" fails even where the program's output cannot show it, e.g. LLGO_OPTIMIZE=off)
+        for pk in PKGS:
+            m = mpred.get(pk)
+            if m is None:
+                continue
+            if step["observed"][pk] == "hit" and seen_rel.get(pk) and m[2] not in seen_rel[pk] and not step["stale_lines"]:
+                k0 = snap["kind"]
+                if k0 == "cside":
+                    key = KNOWN_CLASSES["side"]
+                elif k0 == "ccflags":
+                    key = KNOWN_CLASSES["ccflags"]
+                elif snap["hidden"]:
+                    key = KNOWN_CLASSES["mtime"]
+                else:
+                    key = "cache:hit-after-change:%s" % step["edit"]
+                res["stale"][key] = res["stale"].get(key, 0) + 1
+                ctx.report(key, "after the edit `%s` package %s/%s was served from the cache (no new archive) although its relevant inputs differ from those "
+                           "of every earlier build with this cache: the archive linked was compiled from other inputs" % (step["edit"], MODNAME, pk),
+                           dict(snap, history=hid, step=step["step"], package=pk, compiler="harness build (build.Do + -X)" if builder.is_harness else "llgo build",
+                                how="write the files, run the listed edits each followed by the command with a private XDG_CACHE_HOME; watch "
+                                    "<XDG_CACHE_HOME>/llgo/build/*/%s/%s/: no new <fingerprint>.a appears after the last edit" % (MODNAME, pk)))
+            seen_rel.setdefault(pk, set()).add(m[2])
+        step["model"] = {k: list(v[:2]) for k, v in mpred.items() if k in PKGS}
         for pk in PKGS:
             m = mpred.get(pk)
             if m is None:
@@ -935,13 +1012,32 @@ def reproducibility(ctx, builder, res, rounds=2):
     shutil.rmtree(root, ignore_errors=True)
 
 
-EDIT_POOL_LLGO = [("src", "c/c.go"), ("src", "a/a.go"), ("src", "b/b.go"), ("src", "main.go"), ("tag", None), ("opt", None), ("addfile", None),
+EDIT_POOL_LLGO = [("src", "c/c.go"), ("src", "cfg/cfg.go"), ("src", "a/a.go"), ("src", "b/b.go"), ("src", "main.go"), ("tag", None), ("opt", None), ("addfile", None),
                   ("touch", "b/b.go"), ("revert", "c/c.go"), ("force", None), ("noop", None), ("clear", None), ("abi", None),
                   ("src-hidden", "a/a.go"), ("src-hidden", "c/c.go"), ("cside", None), ("ccflags", None)]
-# which e2e edit exercises an input kind that the manifest correspondence found missing
-TARGETED = {"rewrite-val": ("xvar", None), "rewrite-add": ("xvar", None), "dep-content": ("src", "c/c.go"), "tags": ("tag", None), "opt": ("opt", None),
-            "abimode": ("abi", None), "file-mtime": ("touch", "b/b.go"), "file-content-size": ("src", "a/a.go"), "file-add": ("addfile", None),
-            "file-remove": ("addfile", None)}
+# which e2e edits exercise an input kind for which the manifest correspondence found the real key too coarse.  These
+# histories run ONLY then (the unchanged tree never pays for them); they turn "the key lost an input" into a concrete program
+# that is stale, or a concrete package served from the cache across a change the compiler honours.
+OPT_EDITS = [("opt", None)]          # -O2 -> -O0: `a.opt` (clang's __OPTIMIZE__ in the C side file) must flip
+TARGETED = {"rewrite-val": [("xvar", None)], "rewrite-add": [("xvar", None)],
+            "dep-content": [("src", "cfg/cfg.go"), ("src", "c/c.go")],
+            "tags": [("tag", None)], "abimode": [("abi", None)],
+            "opt": OPT_EDITS, "cc": OPT_EDITS, "ccrest": OPT_EDITS, "cflags": OPT_EDITS, "ldflags": OPT_EDITS, "linker": OPT_EDITS,
+            "file-mtime": [("touch", "b/b.go")], "file-content-size": [("src", "a/a.go")], "file-content-samesize": [("src-hidden", "c/c.go")],
+            "file-add": [("addfile", None)], "file-remove": [("addfile", None)], "extra": [],
+            # values the compiler honours (build.go isEnvOn accepts 1/true/on): tracing on shows as call lines of every package
+            "env-listed": [("envvar", "LLGO_TRACE=on"), ("envvar", "LLGO_TRACE="), ("envvar", "LLGO_TRACE=1"), ("envvar", "LLGO_TRACE="),
+                           ("envvar", "LLGO_OPTIMIZE=off")],
+            "env-ccflags": [("ccflags", None)]}
+
+
+def targeted_script(kinds):
+    script = []
+    for k in sorted(kinds):
+        for e in TARGETED.get(k.split(":")[0], []):
+            if not script or script[-1] != e or e[0] in ("xvar", "opt", "tag", "abi", "ccflags", "addfile"):
+                script.append(e)
+    return script
 
 
 def random_script(rng, n, with_x):
@@ -989,9 +1085,14 @@ def run(ctx, args):
             % (cstats["requests"], len(field_mm), cstats["pairs"], len(coarser), len(finer)))
     if field_mm:
         broken.append("manifest fields differ from the model's key on %d package manifests, e.g. %s" % (len(field_mm), str(field_mm[0])[:1500]))
-    if coarser:
-        broken.append("the real fingerprint is the same where the model's key differs (an input left the manifest): kinds %s, e.g. %s"
-                      % (sorted(set(c[0] for c in coarser)), str(coarser[0])[:1500]))
+    harmful = [c for c in coarser if c[4]]
+    if harmful:
+        broken.append("the real fingerprint is the same where the model's key AND the relevant inputs differ (an input left the manifest): kinds %s, e.g. %s"
+                      % (sorted(set(c[0] for c in harmful)), str(harmful[0])[:1500]))
+    if len(coarser) > len(harmful):
+        ctx.log("note: the real fingerprint identifies %d input pairs that the model's key separates although their relevant inputs are equal (kinds %s): "
+                "harmless (the code ignores something that does not matter), the model should be updated"
+                % (len(coarser) - len(harmful), sorted(set(c[0] for c in coarser if not c[4]))))
     if finer:
         ctx.log("note: the real fingerprint separates %d input pairs that the model's key identifies (kinds %s): the code's key became finer than the "
                 "model; theorems proved for the coarser key still apply, the model should be updated" % (len(finer), sorted(set(c[0] for c in finer))))
@@ -1009,12 +1110,9 @@ def run(ctx, args):
     for h in corpus["histories"]:
         if h["tier"] == "quick" or not quick:
             plans.append((h["id"], b_harn if h["compiler"] == "harness" else b_llgo, [(k, a) for k, a in h["script"]], False))
-    targeted = []
-    for kind in sorted(set(c[0] for c in coarser)):
-        if kind in TARGETED and TARGETED[kind] not in targeted:
-            targeted.append(TARGETED[kind])
-    if targeted:
-        plans.append(("targeted", b_harn, targeted + [("noop", None)], False))
+    tscript = targeted_script(set(c[0] for c in harmful))
+    if tscript:
+        plans.append(("targeted", b_harn, tscript, False))
     nh, ns = (0, 0) if quick else (6, 10)      # quick: the corpus history `quick` only (about eight llgo builds)
     for i in range(nh):
         plans.append(("llgo-%d" % i, b_llgo, random_script(rng, ns, False), (not quick) and i % 4 == 0))
@@ -1022,7 +1120,7 @@ def run(ctx, args):
         plans.append(("x-%d" % i, b_harn, [("xvar", None)] + random_script(rng, ns - 1, True), False))
     for hid, builder, script, fresh in plans:
         t0 = time.time()
-        run_history(ctx, builder, hello, modeld, hid, script, fresh, res, cfg)
+        run_history(ctx, builder, hello, modeld, hid, script, fresh, res, cfg, targeted=(hid == "targeted"))
         ctx.log("history %s (%s): %d steps in %.0f s; stale classes so far: %s" % (hid, "harness build" if builder.is_harness else "llgo build",
                                                                                  len(script) + 1, time.time() - t0, res["stale"]))
     reproducibility(ctx, b_llgo, res, rounds=2 if quick else 3)
@@ -1071,7 +1169,7 @@ def run(ctx, args):
                                "package_cache_decisions_compared_with_model": res["pkg_builds"], "model_stale_predictions": res["model_stale_predictions"]},
         "stale_lines_by_class": res["stale"],
         "ir_modules_compared": len(res["ir_modules"]), "ir_bytes_compared": res["ir_bytes"], "ir_differences": res["ir_differences"],
-        "correspondence_mismatches": len(field_mm) + len(coarser) + len(res["real_coarser"]),
-        "model_finer_notes": len(finer) + len(res["real_finer"]),
+        "correspondence_mismatches": len(field_mm) + len(harmful) + len(res["real_coarser"]),
+        "model_finer_notes": len(finer) + len(res["real_finer"]), "harmless_coarser_notes": len(coarser) - len(harmful),
         "histories": res["histories"] if quick else res["histories"][:6],
     })
